@@ -398,6 +398,7 @@ pub fn cli(args: &[String]) -> bool {
             let hints_path = format!("{}.hints", &args[2]);
             let _ = std::fs::remove_file(&tmp);
             let _ = std::fs::remove_file(&hints_path);
+            let _ = std::fs::remove_file(format!("{}.stderr", &args[3]));
             let exe = std::env::current_exe().expect("exe");
             let mut start = 0usize;
             let mut special: BTreeMap<usize, String> = BTreeMap::new();
@@ -406,7 +407,7 @@ pub fn cli(args: &[String]) -> bool {
                 guard += 1;
                 let mut child = std::process::Command::new(&exe)
                     .args(["binbytes-worker", &args[2], &start.to_string(), &tmp, &hints_path])
-                    .stderr(std::process::Stdio::null())
+                    .stderr(std::fs::OpenOptions::new().create(true).append(true).open(format!("{}.stderr", &args[3])).map(std::process::Stdio::from).unwrap_or(std::process::Stdio::null()))
                     .spawn()
                     .expect("spawn worker");
                 let mut last_len = 0u64;
@@ -464,6 +465,13 @@ pub fn cli(args: &[String]) -> bool {
             let mut outcome_count: BTreeMap<String, u64> = BTreeMap::new();
             let mut kinds: BTreeMap<String, u64> = BTreeMap::new();
             let mut distinct = HashSet::new();
+            let abort_msgs: Vec<String> = std::fs::read_to_string(format!("{}.stderr", &args[3]))
+                .unwrap_or_default()
+                .lines()
+                .filter(|l| l.starts_with("memory allocation of"))
+                .map(|l| l.to_string())
+                .collect();
+            let mut abort_seen = 0usize;
             for (k, (id, lines)) in cases.iter().enumerate() {
                 let kind = lines.iter().find_map(|l| l.strip_prefix("opt kind ")).unwrap_or("?").to_string();
                 *kinds.entry(kind.clone()).or_default() += 1;
@@ -479,7 +487,11 @@ pub fn cli(args: &[String]) -> bool {
                 let msg = block.iter().find_map(|l| l.strip_prefix("#msg ")).unwrap_or("").to_string();
                 match class.as_str() {
                     "PANIC" => writeln!(orc, "{id} C13 {} kind={kind} from_reader panics: {}", panic_site_key(&msg), &msg[..msg.len().min(200)]).unwrap(),
-                    "ABORT" => writeln!(orc, "{id} C13 abort kind={kind} from_reader aborts the process (failed allocation?) on {} input bytes", case_bytes(lines).len()).unwrap(),
+                    "ABORT" => {
+                        let n = abort_msgs.get(abort_seen).cloned().unwrap_or_default();
+                        abort_seen += 1;
+                        writeln!(orc, "{id} C13 abort-alloc kind={kind} from_reader aborts the process on {} input bytes: {n}", case_bytes(lines).len()).unwrap()
+                    }
                     "TIMEOUT" => writeln!(orc, "{id} C13 hang kind={kind} from_reader made no progress for 30 s").unwrap(),
                     "OK" if is_prefix_case(lines) => writeln!(orc, "{id} C13 ok-on-strict-prefix kind={kind} a strict prefix ({} bytes) of a valid file decodes Ok", case_bytes(lines).len()).unwrap(),
                     _ => {}
